@@ -28,11 +28,11 @@ BASE_MODELS = [
 ]
 
 
-def H(tier, desc, symbolic, bound, unwind=4, rules=(), timeout=None, mem_gb=9, expect=None, extra=()):
+def H(tier, desc, symbolic, bound, unwind=4, rules=(), timeout=None, mem_gb=9, expect=None, extra=(), nonterm=()):
     """extra: additional CBMC options, e.g. --arrays-uf-always (arrays as uninterpreted functions
     instead of flattening: 238 s -> 1.7 s for symbolic-index writes into a 1024-word bitfield page)."""
     return dict(tier=tier, desc=desc, symbolic=symbolic, bound=bound, unwind=unwind,
-                rules=list(rules), timeout=timeout, mem_gb=mem_gb, expect=expect, extra=list(extra))
+                rules=list(rules), timeout=timeout, mem_gb=mem_gb, expect=expect, extra=list(extra), nonterm=list(nonterm))
 
 
 UF = ["--arrays-uf-always"]
@@ -153,6 +153,12 @@ C08 = dict(
 PROPS["C08"] = C08
 
 # --------------------------------------------------------------------------------------------- C06
+def _OP(desc, tier="quick"):
+    return H(tier, "Oplog::open on a reference-encoded image: " + desc, "none (image concrete; CRC-framed images with symbolic bytes exhaust memory)",
+             "one configuration per harness instance", rules=[(r"crc32_bitwise", 420), (r"build_entries|open_entries", 6)], timeout=900, unwind=5, extra=FS9000,
+             nonterm=[r"Oplog::open\.unwind"])
+
+
 C06 = dict(
     title="Storage files are readable and writable per the JavaScript on-disk layout",
     variant="model",
@@ -161,7 +167,35 @@ C06 = dict(
     oracle="reference layout encoders in harness/c_oplog.rs (ref_header, ref_entry, ref_leader) and bitwise CRC-32 in harness/ref_codec.rs",
     outside=["golden SHA-256 file hashes of the five-step JS interop scenario (one concrete run with real BLAKE2b/Ed25519: nothing symbolic; real crypto out of reach)"],
     harnesses={
+        "c06_open_slot0_only": H("quick", "Oplog::open picks the header slot the JS rule picks (slot 0 only)", "4 root-hash and 4 signature bytes of each header", "slot presence/bits concrete per instance; other header fields concrete", rules=[(r"crc32_bitwise", 420)], timeout=900, unwind=5, extra=FS9000),
+        "c06_open_slot1_only": H("quick", "Oplog::open picks the header slot the JS rule picks (slot 1 only)", "4 root-hash and 4 signature bytes of each header", "slot presence/bits concrete per instance; other header fields concrete", rules=[(r"crc32_bitwise", 420)], timeout=900, unwind=5, extra=FS9000),
+        "c06_open_both_tt": H("quick", "Oplog::open picks the header slot the JS rule picks (both, bits 1/1)", "4 root-hash and 4 signature bytes of each header", "slot presence/bits concrete per instance; other header fields concrete", rules=[(r"crc32_bitwise", 420)], timeout=900, unwind=5, extra=FS9000),
+        "c06_open_both_tf": H("quick", "Oplog::open picks the header slot the JS rule picks (both, bits 1/0)", "4 root-hash and 4 signature bytes of each header", "slot presence/bits concrete per instance; other header fields concrete", rules=[(r"crc32_bitwise", 420)], timeout=900, unwind=5, extra=FS9000),
+        "c06_open_both_ft": H("quick", "Oplog::open picks the header slot the JS rule picks (both, bits 0/1)", "4 root-hash and 4 signature bytes of each header", "slot presence/bits concrete per instance; other header fields concrete", rules=[(r"crc32_bitwise", 420)], timeout=900, unwind=5, extra=FS9000),
+        "c06_open_both_ff": H("quick", "Oplog::open picks the header slot the JS rule picks (both, bits 0/0)", "4 root-hash and 4 signature bytes of each header", "slot presence/bits concrete per instance; other header fields concrete", rules=[(r"crc32_bitwise", 420)], timeout=900, unwind=5, extra=FS9000),
+        "c06_open_trailing_partial": _OP("entry followed by a trailing partial-flagged entry: dropped, log continues after the kept entry"),
+        "c06_open_only_partial": _OP("only a partial-flagged entry: dropped"),
+        "c06_open_finished_batch": _OP("partial, partial, final: a finished atomic batch is kept whole"),
         "c06_leader_entry": H("quick", "leader (crc, len<<2|partial<<1|header_bit) of an entry vs reference; validate_leader reads it back", "clear entry: drop bit, start < 253, length < 253 (3 symbolic payload bytes), partial bit, header bit", "4 payload bytes (CRC equivalence over many symbolic bytes is XOR-hard for SAT)", timeout=900, rules=[(r"crc32_bitwise", 30), (r"update_slow", 30)]),
     },
 )
 PROPS["C06"] = C06
+
+# --------------------------------------------------------------------------------------------- C02
+C02 = dict(
+    title="A crash between any two storage operations recovers to before-or-after state",
+    variant="model",
+    patterns=["c02_"],
+    functions=["hypercore::oplog::Oplog::{open,validate_leader,clear,append_entries}", "hypercore::oplog::header::Header::decode", "hypercore::oplog::entry::Entry::decode", "crc32fast (portable path)"],
+    oracle="expected entry list / header / next write offset computed from the image specification",
+    outside=["orchestration in core.rs (write order across the four stores, flush cadence): Hypercore's async API does not fit in CBMC here (see DESIGN.md S-gate)",
+             "symbolic payload bytes inside CRC-framed images"],
+    harnesses={
+        "c02_open_one_append": _OP("one unflushed append entry is replayed and the log continues after it"),
+        "c02_open_append_clear": _OP("append + clear entries are replayed in order"),
+        "c02_open_garbage_tail": _OP("5 garbage bytes after the last entry are ignored"),
+        "c02_open_stale_entry": _OP("an entry carrying the previous header bit (left behind by a crash between header write and truncate) is ignored"),
+        "c02_open_valid_then_stale": _OP("valid entry followed by a stale one: only the valid one is replayed"),
+    },
+)
+PROPS["C02"] = C02
